@@ -68,7 +68,7 @@ func (g *G) set(m map[types.Object]Ord, o types.Object, v Ord, why string) {
 	if m[o]|v != m[o] {
 		m[o] |= v
 		g.changed = true
-		key := fmt.Sprintf("%s@%v", o.Name(), o.Pos())
+		key := fmt.Sprintf("%s@%v", core.RefName(o), o.Pos())
 		if _, ok := g.why[key]; !ok {
 			g.why[key] = why
 		}
@@ -288,7 +288,7 @@ func (s *fstate) setOrd(o types.Object, v Ord, strong bool, why string) {
 			s.local[o] = maxOrd(s.local[o], v)
 		}
 		if v == Unord && g.trace {
-			fmt.Println("   local", o.Name(), "Unord:", why)
+			fmt.Println("   local", core.RefName(o), "Unord:", why)
 		}
 		return
 	}
@@ -311,7 +311,7 @@ func (s *fstate) setMapV(o types.Object, v Ord, why string) {
 		if s.lmapv[o]|v != s.lmapv[o] {
 			s.lmapv[o] |= v
 			if g.trace {
-				fmt.Println("   local map", o.Name(), "values Unord:", why)
+				fmt.Println("   local map", core.RefName(o), "values Unord:", why)
 			}
 		}
 	}
@@ -374,7 +374,7 @@ func impls(fn *types.Func) []*types.Func {
 		for _, t := range []types.Type{n, types.NewPointer(n)} {
 			if types.Implements(t, iface) {
 				ms := types.NewMethodSet(t)
-				if m := ms.Lookup(fn.Pkg(), fn.Name()); m != nil {
+				if m := ms.Lookup(fn.Pkg(), core.RefName(fn)); m != nil {
 					if f, ok := m.Obj().(*types.Func); ok {
 						out = append(out, f)
 					}
@@ -590,7 +590,7 @@ func (s *fstate) call(c *ast.CallExpr, idx int) Ord {
 			vals = append(vals, c.Args[i])
 		}
 		if okIdx && (s.inLoopUnord() || g.funcCtx[s.d.fn]) && !s.keysDetermine(keys, vals) {
-			s.choiceAt(c, "call of "+fn.Name()+": "+ps.desc)
+			s.choiceAt(c, "call of "+core.RefName(fn)+": "+ps.desc)
 		}
 	}
 	if c == capture {
@@ -611,7 +611,7 @@ func (s *fstate) call(c *ast.CallExpr, idx int) Ord {
 			r = maxOrd(r, o)
 		}
 		// writer-like accumulation inside an unordered context
-		if recvExpr != nil && (fn != nil && (fn.Name() == "Write" || fn.Name() == "WriteString" || fn.Name() == "WriteByte" || fn.Name() == "WriteRune")) {
+		if recvExpr != nil && (fn != nil && (core.RefName(fn) == "Write" || core.RefName(fn) == "WriteString" || core.RefName(fn) == "WriteByte" || core.RefName(fn) == "WriteRune")) {
 			o, _ := rootObj(s.info, recvExpr)
 			if s.inUnord() && s.isOuter(o) {
 				s.setOrd(o, Txt, false, "writer call in unordered context at "+s.pos(c))
@@ -667,9 +667,9 @@ func (s *fstate) call(c *ast.CallExpr, idx int) Ord {
 				v := maxOrd(maxOrd(s.getMapV(ao), s.getMapV(ac)), g.mapVals[p])
 				g.set(g.mapVals, p, v, "map argument at "+s.pos(c))
 				if ac != nil {
-					s.setMapV(ac, v, "callee effect via "+f.Name()+" at "+s.pos(c))
+					s.setMapV(ac, v, "callee effect via "+core.RefName(f)+" at "+s.pos(c))
 				} else {
-					s.setMapV(ao, v, "callee effect via "+f.Name()+" at "+s.pos(c))
+					s.setMapV(ao, v, "callee effect via "+core.RefName(f)+" at "+s.pos(c))
 				}
 			}
 			if g.sortsParam[f][pi] {
@@ -686,9 +686,9 @@ func (s *fstate) call(c *ast.CallExpr, idx int) Ord {
 				v := maxOrd(maxOrd(s.getMapV(ao), s.getMapV(ac)), g.mapVals[sig.Recv()])
 				g.set(g.mapVals, sig.Recv(), v, "map receiver at "+s.pos(c))
 				if ac != nil {
-					s.setMapV(ac, v, "callee effect via "+f.Name()+" at "+s.pos(c))
+					s.setMapV(ac, v, "callee effect via "+core.RefName(f)+" at "+s.pos(c))
 				} else {
-					s.setMapV(ao, v, "callee effect via "+f.Name()+" at "+s.pos(c))
+					s.setMapV(ao, v, "callee effect via "+core.RefName(f)+" at "+s.pos(c))
 				}
 			}
 		}
@@ -1152,7 +1152,7 @@ func (s *fstate) closureVars(e ast.Expr, depth int, out map[types.Object]bool) {
 	ast.Inspect(e, func(n ast.Node) bool {
 		if c, ok := n.(*ast.CallExpr); ok {
 			// a module function on the way (hashing, normalising, ...) may be lossy: the value computed is not an injective image of its inputs
-			if fn := calleeFunc(s.info, c); fn != nil && decls[fn] != nil && fn.Name() != "String" {
+			if fn := calleeFunc(s.info, c); fn != nil && decls[fn] != nil && core.RefName(fn) != "String" {
 				s.lossy = true
 			}
 		}
